@@ -92,7 +92,8 @@ Record obj := mkObj {
 Inductive gfn :=
   | GStringDel | GStringAssign | GStringConcat | GStringResize | GStringFormatTo
   | GTupleDel | GTupleAssign | GTuplePush | GTuplePop | GTuplePushAt | GTuplePopAt
-  | GTupleConcat | GTupleResize.
+  | GTupleConcat | GTupleResize
+  | GTupleAssignIter.      (* Tuple_Assign from a source without Len+Get (filter(..), any plain iterable) *)
 
 (* classes each of them refuses (ValueError) before touching the buffer, from the source *)
 Definition guards_src (f : gfn) : list nat :=
@@ -104,6 +105,7 @@ Definition guards_src (f : gfn) : list nat :=
   | GTuplePush => hdr_guard_tuple_push | GTuplePop => hdr_guard_tuple_pop
   | GTuplePushAt => hdr_guard_tuple_push_at | GTuplePopAt => hdr_guard_tuple_pop_at
   | GTupleConcat => hdr_guard_tuple_concat | GTupleResize => hdr_guard_tuple_resize
+  | GTupleAssignIter => hdr_guard_tuple_assign_iter
   end.
 
 Record cfg := mkCfg {
@@ -144,7 +146,8 @@ Inductive producer :=
   | PSlice (c : cont) | PFilter (c : cont) | PMap (c : cont)   (* item of a view over the container *)
   | PRangeStack | PRangeHeap             (* item of range(...) / of new(Range, ...) *)
   | PZipStack | PZipHeap                 (* item of zip(...) / of new(Zip, ...) *)
-  | PTupleGet (i : inner) | PTupleIter (i : inner).
+  | PTupleGet (i : inner) | PTupleIter (i : inner)
+  | PStaticObj                           (* an object of class AllocStatic set up with header_init (custom allocators) *).
 
 (* registration performed by alloc_by: set(current(GC), self, $I(root)) or nothing *)
 Inductive amethod := MStandard | MRaw | MRoot.
@@ -219,13 +222,14 @@ Definition m_produce (c : cfg) (p : producer) (T K V : tname) : obj :=
   | PZipStack => m_stack TTuple             (* zip(...): $(Tuple, (var[n+1]){0}) *)
   | PZipHeap => m_alloc c TTuple MStandard true      (* Zip_New: z->values = new(Tuple) *)
   | PTupleGet i | PTupleIter i => m_inner c i T
+  | PStaticObj => mkObj (Some T) (code_of AStatic) true (kind_of T) true (buf_constructed (kind_of T) false) true RNone
   end.
 
 (* which (producer, type) pairs exist at all *)
 Definition valid (p : producer) (T K V : tname) : bool :=
   match p with
   | PStatic | PRuntimeType => match T with TType => true | _ => false end
-  | PStack | PCopy => match kind_of T with KType => false | _ => true end
+  | PStack | PCopy | PStaticObj => match kind_of T with KType => false | _ => true end
   | PGet c => match c with CTableK | CTreeK => false | _ => match kind_of (cont_type c T K V) with KType => false | _ => true end end
   | PIter c | PSlice c | PFilter c | PMap c =>
       match c with CTableV | CTreeV => false | _ => match kind_of (cont_type c T K V) with KType => false | _ => true end end
@@ -254,7 +258,7 @@ Definition spec_class (p : producer) : aclass :=
   match p with
   | PNew | PNewRaw | PNewRoot | PAlloc | PAllocRaw | PAllocRoot | PCopy | PRuntimeType => AHeap
   | PStack | PRangeStack | PZipStack => AStack
-  | PStatic => AStatic
+  | PStatic | PStaticObj => AStatic
   | PGet _ | PIter _ | PSlice _ | PFilter _ | PMap _ => AData
   | PRangeHeap | PZipHeap => AHeap
   | PTupleGet i | PTupleIter i => match i with IStack => AStack | INewRaw => AHeap | IArrayElem => AData end
@@ -267,6 +271,7 @@ Inductive op :=
   | OpDealloc | OpDeallocRaw | OpDeallocRoot
   | OpDestruct
   | OpAssign | OpResize | OpConcat | OpAppend | OpPrintTo      (* String and Tuple *)
+  | OpAssignIter                                               (* Tuple: assign from an iterable without Len+Get *)
   | OpPush | OpPop | OpPushAt | OpPopAt | OpRem                (* Tuple *)
   | OpSweep                                                    (* a collection that finds the object unmarked *)
   | OpDelStopped.                                              (* stop(current(GC)); del(x); start(current(GC)) *)
@@ -362,6 +367,7 @@ Definition inplace_fn (k : kind) (p : op) : option gfn :=
   | KString, OpAppend => Some GStringConcat
   | KString, OpPrintTo => Some GStringFormatTo
   | KTuple, OpAssign => Some GTupleAssign
+  | KTuple, OpAssignIter => Some GTupleAssignIter
   | KTuple, OpResize => Some GTupleResize
   | KTuple, OpConcat => Some GTupleConcat
   | KTuple, OpAppend => Some GTuplePush
@@ -558,3 +564,14 @@ Definition table_kbody (H w ks vs i : nat) : nat := table_step H w ks vs * i + 8
 Definition table_vhead (H w ks vs i : nat) : nat := table_step H w ks vs * i + 8 + H + round_up w ks.
 Definition table_vbody (H w ks vs i : nat) : nat := table_step H w ks vs * i + 8 + H + round_up w ks + H.
 Definition table_block (H w ks vs nslots : nat) : nat := table_step H w ks vs * nslots.
+
+(* Tree nodes, site by site.  The key size enters the layout at four places of Tree.c - the calloc and the
+   value's header_init in Tree_Alloc, the accessor Tree_Val, the node copy in Tree_Rem - and each of them uses
+   either m->ksize or that size rounded up to sizeof(var); which one is read off the source per site
+   (hdr_tree_*_kround).  The object is usable only if all of them mean the same offset. *)
+Definition ks_at (rounded : bool) (w ks : nat) : nat := if rounded then round_up w ks else ks.
+
+Definition tree_site_block (H w ks vs : nat) : nat := 3 * w + H + ks_at hdr_tree_alloc_block_kround w ks + H + vs.   (* calloc in Tree_Alloc *)
+Definition tree_site_vhead (H w ks : nat) : nat := 3 * w + H + ks_at hdr_tree_alloc_vhead_kround w ks.              (* where Tree_Alloc puts the value's header *)
+Definition tree_site_vbody (H w ks : nat) : nat := 3 * w + H + ks_at hdr_tree_val_kround w ks + H.                  (* where Tree_Val says the value is *)
+Definition tree_site_copy_end (H w ks vs : nat) : nat := 3 * w + H + ks_at hdr_tree_rem_copy_kround w ks + H + vs.  (* end of the node copy in Tree_Rem *)
